@@ -727,3 +727,60 @@ def reuse_iterate_object(mask, geoms, spec, steps, frac, rel, via_decorator):
         if list(osi.sub_steps) != list(steps) or osi.fractional_accuracy != frac or osi.relative_accuracy != rel:
             return "use %d modified the OverSamplingIterate object's settings" % (t + 1)
     return None
+
+
+# ------------------------------------------------------------------------------------------------ one sampler / one grid, many functions
+
+def _gen_reuse_funcs(rng, tier):
+    schedules = [[2, 4], [2, 3], [2, 4, 8], [2, 3, 4]]
+    fracs = [0.5, 0.9, 0.99, 0.9999]
+    i = 0
+
+    def case(m):
+        nonlocal i
+        ps, og = _geom(rng)
+        kinds = [k for k in range(N_KINDS) if k != 6]
+        c = {"mask": m, "pixel_scales": ps, "origin": og, "specs": [_spec(rng, rng.choice(kinds)) for _ in range(rng.choice([2, 3]))],
+             "steps": schedules[i % len(schedules)], "frac": fracs[(i // 2) % len(fracs)],
+             "rel": None if rng.random() < 0.7 else 10.0 ** rng.uniform(-3, 0), "via_decorator": bool(i % 2)}
+        i += 1
+        return c
+
+    for m in gens.all_masks(gens.budget(tier, 5, 7), min_unmasked=1):
+        yield case(m)
+    for _ in range(gens.budget(tier, 300, 2500)):
+        yield case(gens.random_mask(rng, 4, 4, min_unmasked=1))
+
+
+@bounded("C09", "reuse-one-iterate-sampler-many-functions", gen=_gen_reuse_funcs, nontrivial=lambda specs, steps, **k: len(steps) > 1,
+         twins=("mask",))
+def reuse_iterate_sampler_many_functions(mask, pixel_scales, origin, specs, steps, frac, rel, via_decorator):
+    """C09: 'The iterative scheme returns for each pixel the binned value at the first sub-size of its schedule whose agreement
+    with the previous level ... meets the requested fractional accuracy ...; otherwise the value at the last sub-size' -- for
+    every function, whatever the sampler evaluated before: ONE OverSamplerIterate (or ONE Grid2D carrying an
+    OverSamplingIterate, through @over_sample) evaluates 2..3 different functions one after the other and then the first one
+    again; every result must be the statement's rule for THAT function (pixels that converged early for one function and late
+    for the next are where a work buffer kept between calls shows); ties and all-zero-at-centres functions skipped; bound:
+    all masks <= 5 (7) cells + 300 (2500) random <= 4x4, 4 schedules, 4 accuracies, 7 function families."""
+    import autoarray as aa
+    mk = aa.Mask2D(mask=mask.copy(), pixel_scales=pixel_scales, origin=origin)
+    sampler = aa.OverSamplerIterate(mask=mk, fractional_accuracy=frac, relative_accuracy=rel, sub_steps=list(steps))
+    grid = aa.Grid2D.from_mask(mask=mk, over_sampling=aa.OverSamplingIterate(
+        fractional_accuracy=frac, relative_accuracy=rel, sub_steps=list(steps)))
+    for t, spec in enumerate(list(specs) + [specs[0]]):
+        if _centres_all_zero(spec, mask, pixel_scales, origin):
+            continue
+        want, ambiguous, levels = _iterate_oracle(spec, mask, pixel_scales, origin, steps, frac, rel)
+        if ambiguous:
+            continue
+        if via_decorator:
+            got = _make_profile(aa, spec, False, []).image_2d_from(grid)
+        else:
+            got = sampler.array_via_func_from(func=lambda obj, g, *a, _s=spec, **kw: _f(_s, np.array(g, dtype=float).reshape(-1, 2)), obj=None)
+        got = np.asarray(got.slim if hasattr(got, "slim") else got, dtype=float)
+        if got.shape != want.shape or not _close(got, want):
+            k = int(np.argmax(np.abs(got - want))) if got.shape == want.shape else 0
+            return "function %d of %d evaluated by one %s: pixel %d got %r, rule gives %r (a fresh sampler is not needed by the statement)" % (
+                t + 1, len(specs) + 1, "Grid2D + @over_sample" if via_decorator else "OverSamplerIterate", k,
+                got[k] if got.shape == want.shape else got.shape, want[k])
+    return None
